@@ -176,15 +176,17 @@ Definition read_indexs (b : list N) (first : N * N) (interval : N) : res (list (
   | Panic => Panic
   end.
 
-(** move_to_index_by_count: the loop over successive 1024-byte reads.  At read_len = 0 the source
-    returns msg_count WITHOUT the records counted so far ([base]); kept as is. *)
+(** move_to_index_by_count: the loop over successive 1024-byte reads.  At read_len = 0 (end of file
+    before an end marker: a file cut exactly behind its last record) the repaired source returns the
+    records counted so far as well (before the repair it returned [base] alone, with a cursor that had
+    already moved past them). *)
 Fixpoint scan_file (fuel : nat) (rd : rdr) (r : mbr) (c count cursor base : N)
   : res (N * N) :=
   match fuel with
   | O => Err
   | S fu =>
       match rdr_read rd 1024 with
-      | ([], _) => Ok (cursor, base)
+      | ([], _) => Ok (cursor, base + c)
       | (ch, rd') =>
           res_bind (mbr_append r ch) (fun r1 =>
           res_bind (drain_count (S (S (en r1 - st r1))) r1 c count cursor) (fun '(hit, c', cur', r2) =>
